@@ -129,6 +129,21 @@ struct StackPointerOffsetAnalysis {
 }
 
 impl StackPointerOffsetAnalysis {
+    // True if the expression is the stack pointer plus or minus constants.
+    // Only then does evaluating it over the current offset give the new offset.
+    fn is_offset(&self, expression: &il::Expression) -> bool {
+        let is_constant = |e: &il::Expression| matches!(e, il::Expression::Constant(_));
+        match expression {
+            il::Expression::Scalar(scalar) => *scalar == self.stack_pointer,
+            il::Expression::Add(lhs, rhs) => {
+                (self.is_offset(lhs) && is_constant(rhs))
+                    || (is_constant(lhs) && self.is_offset(rhs))
+            }
+            il::Expression::Sub(lhs, rhs) => self.is_offset(lhs) && is_constant(rhs),
+            _ => false,
+        }
+    }
+
     // Handle an operation for stack pointer offset analysis
     fn handle_operation(
         &self,
@@ -144,7 +159,7 @@ impl StackPointerOffsetAnalysis {
                         IntermediateOffset::Value(ref constant) => {
                             let expr =
                                 src.replace_scalar(&self.stack_pointer, &constant.clone().into())?;
-                            if expr.all_constants() {
+                            if self.is_offset(src) && expr.all_constants() {
                                 IntermediateOffset::Value(eval(&expr)?)
                             } else {
                                 IntermediateOffset::Top
